@@ -21,8 +21,10 @@ Reset == ResetK(Fresh(E.stim)) /\ Count({"runs", E.stim.kind} \cup (IF "text" \i
 InnerReq == /\ Live("inner_req") /\ UNCHANGED stats /\ JudgeK(<< <<"InnerCalledOnce", ~Is(s.innerReq)>> >>, [s EXCEPT !.innerReq = E])
 InnerBody == /\ Live("inner_body") /\ UNCHANGED stats /\ JudgeK(<<>>, [s EXCEPT !.innerBody = E])
 Resp == /\ Live("resp") /\ UNCHANGED stats /\ JudgeK(<<>>, [s EXCEPT !.resp = E])
+\* a Pending poll of the translated body must have arranged a wake-up (the scripted inner bodies are always ready)
 Out == /\ Live("out") /\ UNCHANGED stats
-       /\ IF E.side = "req" THEN JudgeK(<<>>, IF E.k = "data" THEN [s EXCEPT !.reqData = @ \o E.bytes] ELSE s)
+       /\ IF E.k = "pending" THEN JudgeK(<< <<"PendingArrangesWakeup", E.woken>> >>, s)
+          ELSE IF E.side = "req" THEN JudgeK(<<>>, IF E.k = "data" THEN [s EXCEPT !.reqData = @ \o E.bytes] ELSE s)
           ELSE JudgeK(<< <<"NothingAfterTheEnd", ~(s.ends > 0 /\ E.k \in {"data", "trailers"})>> >>,
                       CASE E.k = "data" -> [s EXCEPT !.data = @ \o E.bytes]
                         [] E.k = "trailers" -> [s EXCEPT !.trailers = Append(@, E.list)]
